@@ -22,11 +22,11 @@ def run_variant(jobs, hashseed, busy=False):
 
 def run(res, tier):
     proved = prove(res, MODULE, THEOREMS)
-    n = 6 if tier == "quick" else 50
+    n = 6 if tier == "quick" else 15
     base = seed() * 100003
     gens = [gen_balanced, gen_scalar, gen_bundle, gen_gated, gen_latch, gen_entities, gen_untyped, lambda s: gen_layout(s, profile=s)]
     n = 2 if tier == "quick" else n
-    sources = [g(base + i) for g in gens for i in range(n)][: (16 if tier == "quick" else 300)]
+    sources = [g(base + i) for g in gens for i in range(n)][: (16 if tier == "quick" else 120)]
     unrelated = gen_untyped(base + 999)   # pollutes process-global signal tables before the real compile
     tmp = tempfile.mkdtemp(prefix="c19_")
     variants = [  # (name, hashseed, time_limit, pre, cwd)
